@@ -144,12 +144,15 @@ def check_attr_reads(protocol, service):
             cfg.update(allow_safe_attrs=bool(m & 1), allow_exposed_attrs=bool(m & 2), allow_public_attrs=bool(m & 4),
                        allow_all_attrs=bool(m & 8), allow_getattr=True, allow_setattr=True, allow_delattr=True)
             conn._config = cfg
-            for perm in ("allow_getattr", "allow_setattr", "allow_delattr"):
-                for name in ("foo", "_x", "exposed_foo", "__eq__", "bar"):
-                    try:
-                        conn._check_attr(_Probe(), name, perm)
-                    except AttributeError:
-                        pass
+            for prefix in ("exposed_", "", "x"):
+                cfg["exposed_prefix"] = prefix
+                for obj in (_Probe(), object()):          # with and without the name / the twin
+                    for perm in ("allow_getattr", "allow_setattr", "allow_delattr"):
+                        for name in ("foo", "_x", "exposed_foo", "__eq__", "bar", "xfoo"):
+                            try:
+                                conn._check_attr(obj, name, perm)
+                            except AttributeError:
+                                pass
             keys |= cfg.read
     finally:
         conn.close()
@@ -243,6 +246,9 @@ def servers_own_dict(service):
         d = ThreadedServer(service.VoidService, hostname="127.0.0.1", port=0, auto_register=False, protocol_config=given)
         made.append(d)
         keeps_given = d.protocol_config is given
+        # every per-client path builds a PRIVATE dict from protocol_config: ThreadedServer._serve_client and
+        # ThreadPoolServer._authenticate_and_build_connection (a separate copy of that code)
+        per_client_private = _per_client_dicts_private(service, given)
     finally:
         for srv in made[:3]:
             srv.protocol_config.pop("allow_public_attrs", None)      # undo the probe edits (matters only if shared)
@@ -252,7 +258,89 @@ def servers_own_dict(service):
                 srv.listener.close()
             except Exception:  # noqa
                 pass
-    return (distinct and not leak_b and not leak_c), keeps_given
+    return (distinct and not leak_b and not leak_c), keeps_given, per_client_private
+
+
+def _per_client_dicts_private(service, given):
+    """connections made by ThreadedServer._serve_client and by ThreadPoolServer._authenticate_and_build_connection
+    from one protocol_config: each has its own `_config`, equal in the modelled keys to defaults + protocol_config,
+    and a later in-place edit of protocol_config does not show in them"""
+    import socket
+    from rpyc.utils.server import ThreadedServer, ThreadPoolServer
+    got, socks, servers, ok = [], [], [], True
+
+    class Capturing(ThreadedServer):
+        def _handle_connection(self, conn):
+            got.append(conn)
+    try:
+        cfg = dict(given)
+        ts = Capturing(service.VoidService, hostname="127.0.0.1", port=0, auto_register=False, protocol_config=cfg)
+        servers.append(ts)
+        a, b = socket.socketpair()
+        socks += [a, b]
+        ts._serve_client(a, None)
+        tp = ThreadPoolServer(service.VoidService, hostname="127.0.0.1", port=0, auto_register=False,
+                              protocol_config=cfg, nbThreads=1)
+        servers.append(tp)
+        c, d = socket.socketpair()
+        socks += [c, d]
+        _sock, conn2 = tp._authenticate_and_build_connection(c)
+        got.append(conn2)
+        cfg["allow_all_attrs"] = True
+        for conn in got:
+            if conn._config is cfg or conn._config["allow_all_attrs"] is not False \
+                    or conn._config["allow_public_attrs"] is not given["allow_public_attrs"]:
+                ok = False
+        if got[0]._config is got[1]._config:
+            ok = False
+    finally:
+        for conn in got:
+            try:
+                conn.close()
+            except Exception:  # noqa
+                pass
+        for srv in servers:
+            try:
+                srv.close()
+            except Exception:  # noqa
+                pass
+        for sk in socks:
+            try:
+                sk.close()
+            except Exception:  # noqa
+                pass
+    return ok
+
+
+def cmp_respects_object_hook(protocol, service):
+    asked = []
+
+    class Refuses(object):
+        def _rpyc_getattr(self, name):
+            asked.append(name)
+            raise AttributeError("refused by the object's own hook")
+
+        def __getitem__(self, k):
+            return "reached"
+    conn = protocol.Connection(service.VoidService(), _NullChannel(), {})
+    try:
+        try:
+            conn._handle_cmp(Refuses(), "k", "__getitem__")
+            reached = True
+        except AttributeError:
+            reached = False
+    finally:
+        conn.close()
+    return (not reached) and asked == ["__getitem__"]
+
+
+def classic_grows_caller_safe_set(protocol, service):
+    mine = set(["only_mine"])
+    conn = service.SlaveService._connect(_NullChannel(), {"safe_attrs": mine})
+    try:
+        return mine != set(["only_mine"])
+    finally:
+        conn.close()
 
 
 def classic_aliasing(protocol, service):
@@ -381,7 +469,9 @@ def gen_policy():
           "def getattrDelegates : List String := " + lean_list([lean_str(d) for d in delegates], 5)]
     own_copy, equals_defaults, overlaid, untouched, frozen, mode = init_behaviour(protocol, service)
     writes_arg, added = classic_aliasing(protocol, service)
-    servers_own, keeps_given = servers_own_dict(service)
+    servers_own, keeps_given, per_client_private = servers_own_dict(service)
+    cmp_respects = cmp_respects_object_hook(protocol, service)
+    grows_caller_set = classic_grows_caller_safe_set(protocol, service)
     L += ["", "/-- `Connection.__init__`, observed: the connection's `_config` is its own dict (not DEFAULT_CONFIG, not shared),",
           "equals the defaults when no config is given, has the caller's keys overlaid, and neither DEFAULT_CONFIG nor the",
           "caller's dict is modified -/",
@@ -405,6 +495,15 @@ def gen_policy():
           "constructed WITH a dict keeps that very object (documented sharing) -- observed on real ThreadedServers -/",
           "def serversOwnDict : Bool := %s" % lean_bool(servers_own),
           "def serverKeepsGivenDict : Bool := %s" % lean_bool(keeps_given),
+          "/-- both per-client paths (ThreadedServer._serve_client, ThreadPoolServer._authenticate_and_build_connection)",
+          "connect with a private dict built from protocol_config: own `_config` per connection, later edits of",
+          "protocol_config do not show -- observed -/",
+          "def serverPerClientDictPrivate : Bool := %s" % lean_bool(per_client_private),
+          "/-- a classic connect given the caller's own `safe_attrs` set leaves that set object as it was (observed) -/",
+          "def classicGrowsCallerSafeSet : Bool := %s" % lean_bool(grows_caller_set),
+          "/-- `_handle_cmp` lets an object's OWN `_rpyc_getattr` hook decide (observed: a class whose hook refuses every",
+          "name is asked, and refuses, for HANDLE_CMP with a safe-listed operator under the default configuration) -/",
+          "def cmpRespectsObjectHook : Bool := %s" % lean_bool(cmp_respects),
           "def classicAddsToSafeCp : List (List Nat) := [%s]" % ", ".join(cps(n) for n in added)]
     # SlaveService.on_connect
     upd, unchanged = slave_update(protocol, service)
@@ -419,9 +518,7 @@ def gen_policy():
     for key, camel in SWITCHES + OTHER_BOOLS:
         L.append("def slaveSet%s : Option Bool := %s" % (
             camel, ("some " + lean_bool(upd[key])) if key in upd else "none"))
-    L += ["def slaveUpdate : List (String × Bool) := " + lean_list(
-              ["(%s, %s)" % (lean_str(k), lean_bool(v)) for k, v in sorted(upd.items())], 3),
-          "/-- DEFAULT_CONFIG compared deep-equal before/after running on_connect -/",
+    L += ["/-- DEFAULT_CONFIG compared deep-equal before/after a classic connect -/",
           "def slaveLeavesDefaultsAlone : Bool := %s" % lean_bool(unchanged)]
     # hooks
     class _T(object):
@@ -429,9 +526,6 @@ def gen_policy():
     view_cls = type(helpers.restricted(_T(), ["a"], ["b"]))
     void = service.VoidService()
     L += ["", "/-! ### type-level attribute hooks -/",
-          "def serviceHooks : List String := " + lean_list([lean_str(h) for h in hooks_of(service.Service)]),
-          "def slaveServiceHooks : List String := " + lean_list([lean_str(h) for h in hooks_of(service.SlaveService)]),
-          "def restrictedHooks : List String := " + lean_list([lean_str(h) for h in hooks_of(view_cls)]),
           "/-- what `Service._rpyc_setattr` / `_rpyc_delattr` do when called (observed) -/",
           "def serviceSetattrOutcome : String := %s" % lean_str(
               raises_name(lambda: service.Service._rpyc_setattr(void, "x", 1)) if "_rpyc_setattr" in hooks_of(service.Service) else "absent"),
